@@ -176,3 +176,396 @@ Proof.
   apply assoc_in_keys in Ad. apply in_map_iff in Ad as [[k' v'] [Ek Hin]]. cbn in Ek. subst k'.
   rewrite forallb_forall in Vdef. apply Vdef in Hin. cbn in Hin. apply has_key_assoc in Hin as [w Hw]. congruence.
 Qed.
+
+(* ================================================================== C11: the generic verify() *)
+Lemma verify_param_ok c m p :
+  verify_param c m p = Ok tt <->
+  (str_eqb (p_name p) star || (required_ok m p && enumerated_ok c m p)) = true.
+Proof.
+  unfold verify_param, required_ok, enumerated_ok.
+  destruct (str_eqb (p_name p) star); [cbn; tauto|]. cbn [orb].
+  destruct (assoc (p_name p) m) as [v|].
+  - destruct (negb (is_bool_ty (p_ty p)) && negb (py_truthy v)) eqn:E.
+    + apply andb_true_iff in E as [E1 E2]. apply negb_true_iff in E1, E2. rewrite E1, E2. cbn [orb].
+      destruct (p_req p); cbn; destruct (assoc (p_name p) (c_allowed c)); split; intros H; try reflexivity; discriminate.
+    + assert (T : is_bool_ty (p_ty p) || py_truthy v = true).
+      { apply andb_false_iff in E as [E|E]; apply negb_false_iff in E; rewrite E; [reflexivity|apply orb_true_r]. }
+      rewrite T, orb_true_r. cbn [andb].
+      destruct (assoc (p_name p) (c_allowed c)) as [al|]; [|tauto].
+      destruct (type_check (p_ty p) al v (p_null p)); split; intros H; try reflexivity; discriminate.
+  - destruct (p_req p); cbn; destruct (assoc (p_name p) (c_allowed c)); split; intros H; try reflexivity; discriminate.
+Qed.
+
+Lemma verify_params_ok c m ps :
+  verify_params c m ps = Ok tt <->
+  forallb (fun p => str_eqb (p_name p) star || (required_ok m p && enumerated_ok c m p)) ps = true.
+Proof.
+  induction ps as [|p r IH]; [cbn; tauto|]. cbn [verify_params forallb].
+  rewrite andb_true_iff, <- IH, <- verify_param_ok.
+  destruct (verify_param c m p) as [[]|e|]; cbn [bind]; split.
+  - auto.
+  - tauto.
+  - discriminate.
+  - intros [H _]. discriminate.
+  - discriminate.
+  - intros [H _]. discriminate.
+Qed.
+
+(* verify() succeeds exactly on the messages that satisfy the schema as the property reads it *)
+Theorem generic_verify_iff c m : generic_verify c m = Ok tt <-> schema_ok c m = true.
+Proof. apply verify_params_ok. Qed.
+
+(* ... unfolded: what a successful verify guarantees for each declared parameter *)
+Theorem generic_verify_sound c m p :
+  generic_verify c m = Ok tt -> In p (c_params c) -> p_name p <> star ->
+  (p_req p = true ->
+     exists v, assoc (p_name p) m = Some v /\ (is_bool_ty (p_ty p) = true \/ py_truthy v = true))
+  /\ (forall al v, assoc (p_name p) (c_allowed c) = Some al -> assoc (p_name p) m = Some v ->
+        (is_bool_ty (p_ty p) = true \/ py_truthy v = true) ->
+        type_check (p_ty p) al v (p_null p) = true).
+Proof.
+  intros H Hin Hne. apply generic_verify_iff in H. unfold schema_ok in H. rewrite forallb_forall in H.
+  specialize (H p Hin). apply str_eqb_neq in Hne. rewrite Hne in H. cbn [orb] in H.
+  apply andb_true_iff in H as [Hr He]. split.
+  - intros Hq. unfold required_ok in Hr. rewrite Hq in Hr. cbn in Hr.
+    destruct (assoc (p_name p) m) as [v|]; [|discriminate]. exists v. split; [reflexivity|].
+    apply orb_true_iff in Hr. exact Hr.
+  - intros al v Ha Hv Ht. unfold enumerated_ok in He. rewrite Ha, Hv in He.
+    destruct (negb (is_bool_ty (p_ty p)) && negb (py_truthy v)) eqn:E; [|exact He].
+    apply andb_true_iff in E as [E1 E2]. apply negb_true_iff in E1, E2. destruct Ht; congruence.
+Qed.
+
+(* enumerated values, spelled out for the three shapes _type_check distinguishes *)
+Lemma type_check_scalar al v na :
+  type_check (PScalar TStr) al v na = true -> py_in v al = true.
+Proof. auto. Qed.
+Lemma type_check_list t al items na :
+  type_check (PList t) al (VList items) na = true -> forall i, In i items -> py_in i al = true.
+Proof. cbn. intros H i Hi. rewrite forallb_forall in H. auto. Qed.
+
+(* ================================================================== C11: typed slots *)
+Lemma split_c_nonnil sep s : split_c sep s <> [].
+Proof.
+  induction s as [|c r IH]; cbn; [discriminate|]. destruct (c =? sep); [discriminate|].
+  destruct (split_c sep r); [congruence|discriminate].
+Qed.
+Lemma join_split sep s : join [sep] (split_c sep s) = s.
+Proof.
+  induction s as [|c r IH]; [reflexivity|]. cbn [split_c].
+  pose proof (split_c_nonnil sep r) as Hne.
+  destruct (c =? sep) eqn:E.
+  - apply N.eqb_eq in E. subst c. destruct (split_c sep r) as [|x xs] eqn:S; [congruence|].
+    change (join [sep] ([] :: x :: xs)) with ([] ++ [sep] ++ join [sep] (x :: xs)). rewrite IH. reflexivity.
+  - destruct (split_c sep r) as [|x xs] eqn:S; [congruence|]. cbn [cons_hd].
+    destruct xs as [|y ys].
+    + cbn in *. now rewrite IH.
+    + change (join [sep] ((c :: x) :: y :: ys)) with ((c :: x) ++ [sep] ++ join [sep] (y :: ys)).
+      change (join [sep] (x :: y :: ys)) with (x ++ [sep] ++ join [sep] (y :: ys)) in IH.
+      rewrite <- IH. reflexivity.
+Qed.
+Lemma forallb_is_str_map l : forallb is_str (List.map VStr l) = true.
+Proof. induction l; cbn; auto. Qed.
+Lemma list_eqb_str_refl l : list_eqb str_eqb l l = true.
+Proof. induction l as [|x r IH]; [reflexivity|]. cbn. now rewrite str_eqb_refl, IH. Qed.
+
+Lemma checked_list_case l w :
+  (if existsb is_obj l then Unmodelled
+   else if forallb is_str l then Ok (Some (VList l)) else Err EDecode) = Ok (Some w) ->
+  w = VList l /\ forallb is_str l = true.
+Proof.
+  destruct (existsb is_obj l); [discriminate|]. destruct (forallb is_str l); [|discriminate].
+  intros H. inversion H. auto.
+Qed.
+
+Ltac inv_ok :=
+  match goal with
+  | H : Ok _ = Ok _ |- _ => inversion H; subst; clear H
+  | H : Err _ = Ok _ |- _ => discriminate H
+  | H : Unmodelled = Ok _ |- _ => discriminate H
+  end.
+
+(* what _add_value stores has the declared type and is the given value or a lossless coercion of
+   it; the only other thing ever stored is None for None.  Guard: a dict given to a [str]
+   parameter (slot_guard) - see add_value_typed_refuted. *)
+Theorem add_value_typed p k v w :
+  modelled_kind p = Some k -> slot_guard p v = true -> add_value p v = Ok (Some w) ->
+  (v = VNone /\ w = VNone) \/ (has_type (p_ty p) w = true /\ (w = v \/ coerced p v w = true)).
+Proof.
+  intros K G A. destruct (modelled_kind_inv p k K) as [Hn Hk].
+  unfold add_value in A. cbv zeta in A. unfold slot_guard in G. unfold coerced.
+  destruct k; destruct Hk as (Ht & Hs & Hd); rewrite Hn, Ht, Hd in A; rewrite Ht in *; try rewrite Hd; cbn [negb] in A.
+  - (* str *)
+    destruct v as [| b | z | s | l | d | f]; cbn in A; try inv_ok; auto.
+    destruct l as [|x r]; [inv_ok|]. destruct x; inv_ok.
+  - (* int *)
+    destruct v as [| b | z | s | l | d | f]; cbn in A; try inv_ok; auto.
+    + destruct (py_int s) as [z|e|] eqn:P; inv_ok. right. split; [reflexivity|]. right. apply Z.eqb_refl.
+    + destruct l as [|x r]; [inv_ok|]. destruct x; inv_ok.
+  - (* bool *)
+    destruct v as [| b | z | s | l | d | f]; cbn in A; try inv_ok; auto.
+    destruct l as [|x r]; [inv_ok|]. destruct x; inv_ok.
+  - (* [str] list_serializer *)
+    destruct v as [| b | z | s | l | d | f]; cbn in A; try inv_ok; try discriminate.
+    + right. split; [reflexivity|]. right. cbn. now rewrite str_eqb_refl.
+    + destruct l as [|x r]; [inv_ok|].
+      destruct x; try inv_ok; cbn -[existsb forallb] in A; apply checked_list_case in A as [-> F];
+        right; split; auto.
+  - (* [str] sp_sep_list_serializer *)
+    destruct v as [| b | z | s | l | d | f]; cbn in A; try inv_ok; try discriminate.
+    + right. split; [apply forallb_is_str_map|]. right. now rewrite strs_of_map, join_split, str_eqb_refl.
+    + destruct l as [|x r]; [inv_ok|].
+      destruct r as [|y r'].
+      * destruct x; cbn in A; try inv_ok.
+        rewrite (is_str_no_obj _ (forallb_is_str_map _)), forallb_is_str_map in A. inv_ok.
+        right. split; [apply forallb_is_str_map|]. right. now rewrite strs_of_map, join_split, str_eqb_refl.
+      * destruct x; try inv_ok; cbn -[existsb forallb] in A; apply checked_list_case in A as [-> F];
+          right; split; auto.
+Qed.
+
+(* ================================================================== C11: oidc.AuthorizationRequest rules *)
+Theorem authz_rules_iff nonce m :
+  authz_lists_typed m = true -> (authz_rules nonce m = Ok tt <-> authz_ok nonce m = true).
+Proof.
+  unfold authz_lists_typed, authz_rules, authz_ok, has_key, list_has, list_len, is_list_or_absent.
+  intros T. apply andb_true_iff in T as [T Tp]. apply andb_true_iff in T as [Tr Ts].
+  destruct (assoc (PS "response_type") m) as [rt|]; [|cbn; split; discriminate].
+  destruct rt as [| | | | rtl | |]; try discriminate. cbn [py_contains bind andb].
+  destruct (existsb (fun i => py_eq (VStr (PS "id_token")) i) rtl) eqn:Eidt; cbn [implb].
+  - destruct (assoc (PS "nonce") m) as [n|]; [|cbn; split; discriminate].
+    destruct nonce as [x|].
+    + destruct (py_eq n (VStr x)); [|cbn; split; discriminate]. cbn [bind andb].
+      destruct (assoc (PS "scope") m) as [sc|]; [|cbn; split; discriminate].
+      destruct sc as [| | | | scl | |]; try discriminate. cbn [py_contains bind].
+      destruct (existsb (fun i => py_eq (VStr (PS "openid")) i) scl); [|cbn; split; discriminate]. cbn [negb andb].
+      destruct (existsb (fun i => py_eq (VStr (PS "offline_access")) i) scl); cbn [implb];
+        destruct (assoc (PS "prompt") m) as [pr|]; try (cbn; split; (discriminate || reflexivity));
+        destruct pr as [| | | | prl | |]; try discriminate; cbn [py_contains py_len bind];
+        destruct (existsb (fun i => py_eq (VStr (PS "consent")) i) prl); cbn [andb];
+        destruct (existsb (fun i => py_eq (VStr (PS "none")) i) prl); cbn [andb negb];
+        try destruct (Nat.ltb 1 (length prl)); cbn; split; intros H; try reflexivity; try discriminate.
+    + cbn [bind andb].
+      destruct (assoc (PS "scope") m) as [sc|]; [|cbn; split; discriminate].
+      destruct sc as [| | | | scl | |]; try discriminate. cbn [py_contains bind].
+      destruct (existsb (fun i => py_eq (VStr (PS "openid")) i) scl); [|cbn; split; discriminate]. cbn [negb andb].
+      destruct (existsb (fun i => py_eq (VStr (PS "offline_access")) i) scl); cbn [implb];
+        destruct (assoc (PS "prompt") m) as [pr|]; try (cbn; split; (discriminate || reflexivity));
+        destruct pr as [| | | | prl | |]; try discriminate; cbn [py_contains py_len bind];
+        destruct (existsb (fun i => py_eq (VStr (PS "consent")) i) prl); cbn [andb];
+        destruct (existsb (fun i => py_eq (VStr (PS "none")) i) prl); cbn [andb negb];
+        try destruct (Nat.ltb 1 (length prl)); cbn; split; intros H; try reflexivity; try discriminate.
+  - cbn [bind andb].
+    destruct (assoc (PS "scope") m) as [sc|]; [|cbn; split; discriminate].
+    destruct sc as [| | | | scl | |]; try discriminate. cbn [py_contains bind].
+    destruct (existsb (fun i => py_eq (VStr (PS "openid")) i) scl); [|cbn; split; discriminate]. cbn [negb andb].
+    destruct (existsb (fun i => py_eq (VStr (PS "offline_access")) i) scl); cbn [implb];
+      destruct (assoc (PS "prompt") m) as [pr|]; try (cbn; split; (discriminate || reflexivity));
+      destruct pr as [| | | | prl | |]; try discriminate; cbn [py_contains py_len bind];
+      destruct (existsb (fun i => py_eq (VStr (PS "consent")) i) prl); cbn [andb];
+      destruct (existsb (fun i => py_eq (VStr (PS "none")) i) prl); cbn [andb negb];
+      try destruct (Nat.ltb 1 (length prl)); cbn; split; intros H; try reflexivity; try discriminate.
+Qed.
+
+Lemma assoc_adel_other {V} k k' (m : list (pystr * V)) : k <> k' -> assoc k (adel k' m) = assoc k m.
+Proof.
+  intros Hne. induction m as [|[k2 v2] r IH]; [reflexivity|]. cbn.
+  destruct (str_eqb k' k2) eqn:E.
+  - apply str_eqb_eq in E. subst k2.
+    assert (str_eqb k k' = false) as -> by (apply str_eqb_neq; exact Hne). reflexivity.
+  - cbn. destruct (str_eqb k k2); auto.
+Qed.
+Lemma find_param_none k ps : find_param k ps = None -> forall p, In p ps -> p_name p <> k.
+Proof.
+  induction ps as [|q r IH]; [intros _ p []|]. cbn. destruct (str_eqb k (p_name q)) eqn:E; [discriminate|].
+  intros H p [->|Hin]; [|now apply IH]. apply str_eqb_neq in E. congruence.
+Qed.
+
+(* the message as it stands after a successful oidc.AuthorizationRequest.verify() (no request
+   object, no id_token_hint) satisfies the schema and the class's cross-parameter rules *)
+Theorem authz_verify_sound c nonce m m' :
+  find_param verified_request (c_params c) = None ->
+  authz_verify c nonce m = Ok m' ->
+  schema_ok c m' = true /\ authz_rules nonce m' = Ok tt.
+Proof.
+  intros Hv. unfold authz_verify.
+  destruct (generic_verify c m) as [[]|e|] eqn:G; cbn [bind]; try discriminate.
+  destruct (has_key (PS "request") (adel verified_request m) || has_key (PS "id_token_hint") (adel verified_request m));
+    [discriminate|].
+  destruct (authz_rules nonce (adel verified_request m)) as [[]|e|] eqn:R; cbn [bind]; try discriminate.
+  intros H. inversion H; subst m'. split; [|exact R].
+  apply generic_verify_iff in G. unfold schema_ok in *. rewrite forallb_forall in *.
+  intros p Hin. specialize (G p Hin).
+  pose proof (find_param_none _ _ Hv p Hin) as Hne.
+  unfold required_ok, enumerated_ok in *. rewrite (assoc_adel_other (p_name p) verified_request m Hne). exact G.
+Qed.
+
+(* ================================================================== C10: form encoding round trip *)
+From Coq Require Import Decimal DecimalPos.
+
+Lemma uint_codes_scalar d : forallb is_scalar (uint_codes d) = true.
+Proof. induction d; cbn; auto. Qed.
+Lemma uint_codes_nonnil d : d <> Nil -> uint_codes d <> [].
+Proof. destruct d; cbn; congruence. Qed.
+Lemma str_of_int_ok z : nonempty (str_of_int z) = true /\ encodable (str_of_int z) = true.
+Proof.
+  unfold encodable. destruct z as [|p|p]; cbn [str_of_int].
+  - split; reflexivity.
+  - pose proof (uint_codes_nonnil _ (DecimalPos.Unsigned.to_uint_nonnil p)) as H.
+    split; [destruct (uint_codes (Pos.to_uint p)); [congruence|reflexivity]|apply uint_codes_scalar].
+  - split; [reflexivity|]. cbn. apply uint_codes_scalar.
+Qed.
+
+(* the text a value is sent as *)
+Definition form_text (v : pyval) : pystr :=
+  match v with
+  | VStr s => s
+  | VInt z => str_of_int z
+  | VBool true => PS "True"
+  | VBool false => PS "False"
+  | VList l => join [sp] (strs l)
+  | _ => []
+  end.
+Definition entry_no_space (c : mclass) (kv : pystr * pyval) : bool :=
+  match lookup c (fst kv) with
+  | Some p => match modelled_kind p, snd kv with
+              | Some KList, VList l => forallb (fun x => no_space (str_of x)) l
+              | _, _ => true
+              end
+  | None => true
+  end.
+
+Lemma nonempty_neq s : s <> [] -> nonempty s = true.
+Proof. destruct s; [congruence|reflexivity]. Qed.
+
+Lemma entry_form_roundtrip c k v :
+  valid_entry c (k, v) = true -> form_entry c (k, v) = true -> entry_no_space c (k, v) = true ->
+  entry_pairs c (k, v) = Ok [(k, form_text v)]
+  /\ nonempty (form_text v) = true /\ encodable k = true /\ encodable (form_text v) = true
+  /\ url_value c k [form_text v] = Ok (form_render v).
+Proof.
+  unfold valid_entry, form_entry, entry_no_space, entry_pairs, url_value. cbn [fst snd].
+  intros V F S. apply andb_true_iff in F as [F Fx]. apply andb_true_iff in F as [Fk Fv].
+  destruct (lookup c k) as [p|] eqn:L.
+  - destruct (modelled_kind p) as [kd|] eqn:K; [|discriminate].
+    destruct (modelled_kind_inv p kd K) as [Hn Hk].
+    destruct kd; destruct Hk as (Ht & Hs & Hd); unfold valid_value in V; unfold render; rewrite Hs, Hn, Ht, Hd.
+    + destruct v; try discriminate. cbn in *. repeat split; auto.
+    + destruct v; try discriminate. cbn. destruct (str_of_int_ok z) as [A B]. repeat split; auto.
+    + destruct v; try discriminate. destruct b; cbn; repeat split; auto.
+    + destruct v; try discriminate. pose proof V as V'. unfold str_list_ok in V'. apply andb_true_iff in V' as [Vs Vl].
+      rewrite (is_str_no_obj _ Vs), Vs. cbn [bind List.map form_text form_render fst hd deser_url].
+      repeat split; auto.
+      * apply nonempty_neq. now apply str_list_join_nonempty.
+      * unfold encodable. apply join_forallb; [reflexivity|]. cbn in Fv. rewrite <- forallb_strs. exact Fv.
+      * rewrite (split_join_strs l V S). reflexivity.
+    + destruct v; try discriminate. apply andb_true_iff in V as [V Vns].
+      pose proof V as V'. unfold str_list_ok in V'. apply andb_true_iff in V' as [Vs Vl].
+      rewrite (is_str_no_obj _ Vs), Vs. cbn [bind List.map form_text form_render fst hd deser_url].
+      repeat split; auto.
+      * apply nonempty_neq. now apply str_list_join_nonempty.
+      * unfold encodable. apply join_forallb; [reflexivity|]. cbn in Fv. rewrite <- forallb_strs. exact Fv.
+      * rewrite (split_join_strs l V Vns). reflexivity.
+  - unfold form_extra in Fx. unfold render.
+    destruct v; try discriminate.
+    + destruct b; cbn; repeat split; auto.
+    + cbn. destruct (str_of_int_ok z) as [A B]. repeat split; auto.
+    + cbn in *. repeat split; auto.
+Qed.
+
+Definition form_pairs (m : msg) : list (pystr * pystr) := List.map (fun kv => (fst kv, form_text (snd kv))) m.
+Definition form_msg (m : msg) : msg := List.map (fun kv => (fst kv, form_render (snd kv))) m.
+
+Lemma concat_singletons {A} (l : list A) : concat (List.map (fun x => [x]) l) = l.
+Proof. induction l as [|x r IH]; [reflexivity|]. cbn. now rewrite IH. Qed.
+
+Lemma form_entries c m :
+  forallb (valid_entry c) m = true -> forallb (form_entry c) m = true -> forallb (entry_no_space c) m = true ->
+  map_res (entry_pairs c) m = Ok (List.map (fun x => [x]) (form_pairs m))
+  /\ forallb (fun kv => nonempty (snd kv)) (form_pairs m) = true
+  /\ forallb (fun kv => encodable (fst kv) && encodable (snd kv)) (form_pairs m) = true
+  /\ forall acc, from_url_go c (List.map (fun kv => (fst kv, [snd kv])) (form_pairs m)) acc = Ok (store_all (form_msg m) acc).
+Proof.
+  induction m as [|[k v] r IH]; intros V F S.
+  - repeat split; reflexivity.
+  - cbn [forallb] in V, F, S. apply andb_true_iff in V as [V Vr]. apply andb_true_iff in F as [F Fr].
+    apply andb_true_iff in S as [S Sr].
+    destruct (entry_form_roundtrip c k v V F S) as (E1 & E2 & E3 & E4 & E5).
+    destruct (IH Vr Fr Sr) as (I1 & I2 & I3 & I4).
+    repeat split.
+    + cbn [map_res]. rewrite E1. cbn [bind]. fold (map_res (entry_pairs c)). rewrite I1. reflexivity.
+    + cbn [form_pairs List.map forallb fst snd]. rewrite E2. exact I2.
+    + cbn [form_pairs List.map forallb fst snd]. rewrite E3, E4. exact I3.
+    + intros acc. cbn [form_pairs List.map fst snd from_url_go]. rewrite E5. cbn [bind].
+      fold (form_pairs r). rewrite I4. reflexivity.
+Qed.
+
+Lemma encode_pairs_some l :
+  forallb (fun kv => encodable (fst kv) && encodable (snd kv)) l = true -> exists fs, encode_pairs l = Some fs.
+Proof.
+  induction l as [|[k v] r IH]; [eexists; reflexivity|]. cbn [forallb fst snd]. intros H.
+  apply andb_true_iff in H as [H Hr]. apply andb_true_iff in H as [Hk Hv].
+  destruct (IH Hr) as [fs E]. cbn [encode_pairs]. unfold quote_str, utf8_encode. unfold encodable in Hk, Hv.
+  rewrite Hk, Hv, E. cbn. eauto.
+Qed.
+
+Lemma group_add_fresh k v d : ~ In k (List.map fst d) -> group_add k v d = d ++ [(k, [v])].
+Proof.
+  induction d as [|[k' l] r IH]; [reflexivity|]. cbn. intros H.
+  destruct (str_eqb k k') eqn:E; [apply str_eqb_eq in E; subst; tauto|]. rewrite IH by tauto. reflexivity.
+Qed.
+Lemma group_pairs_distinct l :
+  NoDup (List.map fst l) -> group_pairs l = List.map (fun kv => (fst kv, [snd kv])) l.
+Proof.
+  unfold group_pairs.
+  assert (G : forall l acc, NoDup (List.map fst acc ++ List.map fst l) ->
+              fold_left (fun d kv => group_add (fst kv) (snd kv) d) l acc
+              = acc ++ List.map (fun kv => (fst kv, [snd kv])) l).
+  { induction l0 as [|[k v] r IH]; intros acc ND; [now rewrite app_nil_r|].
+    cbn [fold_left fst snd List.map]. cbn [List.map fst] in ND.
+    pose proof (NoDup_remove_2 _ _ _ ND) as Hnot.
+    rewrite group_add_fresh by (intro I; apply Hnot; apply in_or_app; now left).
+    rewrite IH.
+    - rewrite <- app_assoc. reflexivity.
+    - rewrite map_app. cbn [List.map fst]. rewrite <- app_assoc. exact ND. }
+  intros ND. rewrite (G l []); [reflexivity|exact ND].
+Qed.
+
+Lemma form_pairs_keys m : List.map fst (form_pairs m) = keys m.
+Proof. unfold form_pairs, keys. rewrite map_map. reflexivity. Qed.
+Lemma form_msg_keys m : List.map fst (form_msg m) = keys m.
+Proof. unfold form_msg, keys. rewrite map_map. reflexivity. Qed.
+Lemma assoc_form_msg k m : assoc k (form_msg m) = option_map form_render (assoc k m).
+Proof. induction m as [|[k' v] r IH]; [reflexivity|]. cbn. destruct (str_eqb k k'); auto. Qed.
+
+(* after to_urlencoded / from_urlencoded every entry is the original one up to the textual
+   rendering of int and bool *)
+Definition form_entries_of (r m : msg) : Prop := forall k, assoc k r = option_map form_render (assoc k m).
+
+Theorem urlencoded_roundtrip c m :
+  valid_form c m = true -> list_elems_no_space c m = true ->
+  exists t r, to_urlencoded c m = Ok t /\ from_urlencoded c t (c_default c) = Ok r /\ form_entries_of r m.
+Proof.
+  unfold valid_form, valid_msg. intros V S.
+  apply andb_true_iff in V as [V Vreq]. apply andb_true_iff in V as [V Vform].
+  apply andb_true_iff in V as [V Vdef]. apply andb_true_iff in V as [V Vnd].
+  apply andb_true_iff in V as [Vstar Vent]. apply negb_true_iff in Vstar, Vreq.
+  assert (S' : forallb (entry_no_space c) m = true) by exact S.
+  destruct (form_entries c m Vent Vform S') as (P1 & P2 & P3 & P4).
+  destruct (encode_pairs_some _ P3) as [fs Efs].
+  pose proof (nodup_str_NoDup _ Vnd) as ND.
+  set (t := join [amp] fs).
+  assert (U : urlencode (form_pairs m) = Some t) by (unfold urlencode; now rewrite Efs).
+  pose proof (parse_qsl_urlencode _ _ U P2) as PQ.
+  exists t, (store_all (form_msg m) (c_default c)).
+  unfold to_urlencoded, from_urlencoded, url_pairs. rewrite Vstar, Vreq, P1. cbn [bind]. rewrite concat_singletons, U.
+  split; [reflexivity|]. unfold parse_qs. rewrite PQ. cbn [bind].
+  rewrite group_pairs_distinct by (rewrite form_pairs_keys; exact ND).
+  split.
+  - destruct m as [|kv m'].
+    + cbn in Efs. inversion Efs; subst fs. subst t. reflexivity.
+    + destruct t; cbn [form_pairs List.map]; apply P4.
+  - intros k. rewrite store_all_assoc by (rewrite form_msg_keys; exact ND).
+    rewrite assoc_form_msg. destruct (assoc k m) as [v|] eqn:A; [reflexivity|]. cbn [option_map].
+    destruct (assoc k (c_default c)) as [dv|] eqn:Ad; [|reflexivity]. exfalso.
+    apply assoc_in_keys in Ad. apply in_map_iff in Ad as [[k' v'] [Ek Hin]]. cbn in Ek. subst k'.
+    rewrite forallb_forall in Vdef. apply Vdef in Hin. cbn in Hin. apply has_key_assoc in Hin as [w Hw]. congruence.
+Qed.
